@@ -27,6 +27,36 @@ def parse(smi):
     return m
 
 
+KF_DATIVE = "dative-or-quadruple-bond-not-carried"
+KF_ISOTOPE = "isotope-label-not-carried"
+
+
+def representation_gap(text):
+    """recorded limits of the graph layer, decided from the input alone: the bond table keeps only a numeric order
+    (dative / quadruple bonds cannot be told from single / aromatic ones) and atoms carry no isotope label."""
+    from rdkit import Chem
+    for part in text.replace(">>", ".").split("."):
+        if not part:
+            continue
+        m = Chem.MolFromSmiles(part, sanitize=False)
+        if m is None:
+            continue
+        if any(a.GetIsotope() for a in m.GetAtoms()):
+            return KF_ISOTOPE
+        if any(b.GetBondType() in (Chem.BondType.DATIVE, Chem.BondType.QUADRUPLE, Chem.BondType.DATIVEONE, Chem.BondType.DATIVEL,
+                                   Chem.BondType.DATIVER) or b.GetBondTypeAsDouble() > 3 for b in m.GetBonds()):
+            return KF_DATIVE
+    return None
+
+
+def _smiles_without_stereo(m):
+    """canonical SMILES that ignores stereo descriptors (the graph layer does not carry them) but keeps isotope labels."""
+    from rdkit import Chem
+    m = Chem.Mol(m)
+    Chem.RemoveStereochemistry(m)
+    return Chem.MolToSmiles(m)
+
+
 def side_tables(smi):
     m = parse(smi)
     if m is None:
@@ -71,7 +101,7 @@ def unmapped_canonical(smi):
         m = Chem.RemoveHs(m)
     except Exception:
         pass
-    return Chem.MolToSmiles(m, isomericSmiles=False)
+    return _smiles_without_stereo(m)
 
 
 def fragments_canonical(smi):
